@@ -424,6 +424,45 @@ pub fn drive(tier: &str) -> i32 {
         }
         groups.push(("31 name shapes (bare, suffixed, dotted, dotted with a suffix, on array elements) x 43 statement heads, with and without declarations".into(), texts));
     }
+    {
+        // the names of the built-in functions and statements used as ordinary names: without their `$`, with another
+        // suffix, read before anything was assigned, assigned, declared, passed and received as a parameter
+        let words = [
+            "CHR", "STR", "STRING", "LEFT", "MID", "RIGHT", "SPACE", "UCASE", "LCASE", "LTRIM", "RTRIM", "HEX", "OCT", "INKEY", "INPUT", "ENVIRON", "MKD", "CVD", "LEN", "VAL", "ASC", "INSTR", "EOF", "LBOUND", "UBOUND", "PEEK",
+            "VARPTR", "VARSEG", "ERR", "ERL", "TIMER", "DATE", "TIME", "CLS", "COLOR", "LOCATE", "BEEP", "KILL", "NAME", "CLOSE", "OPEN", "FIELD", "GET", "PUT", "LSET", "POKE", "WIDTH", "VIEW", "SEG", "USING", "STEP", "TO", "IS", "AS",
+            "ACCESS", "APPEND", "OUTPUT", "RANDOM", "BASE", "ANY", "ABSOLUTE",
+        ];
+        let mut texts = vec![];
+        for w in words {
+            for sfx in ["", "$", "%", "#"] {
+                let n = format!("{}{}", w, sfx);
+                for form in [
+                    "X = {}", "X$ = {}", "IF {} = 0 THEN PRINT 1", "PRINT {}", "PRINT {}; 1", "{} = 1", "{} = \"x\"", "DIM {}", "DIM {} AS INTEGER", "DIM {}(3)\n{}(1) = 2", "{} 1", "{}", "S {}\nSUB S (P)\nEND SUB", "SUB S ({})\n  PRINT {}\nEND SUB",
+                    "SUB S\n  X = {}\nEND SUB", "FUNCTION F ({})\n  F = {}\nEND FUNCTION", "FOR {} = 1 TO 2\nNEXT", "INPUT {}", "READ {}", "CONST {} = 1", "X = LEN({})", "X = {} + {}", "X = {}(1)", "X$ = {}(1, 2)", "SELECT CASE {}\nCASE 1\nEND SELECT",
+                    "WHILE {}\nWEND", "{}: PRINT 1", "GOTO {}", "TYPE T\n  {} AS INTEGER\nEND TYPE", "DIM R AS T\nR.{} = 1",
+                ] {
+                    texts.push(format!("{}\n", form.replace("{}", &n)));
+                }
+            }
+        }
+        groups.push(("61 words of the built-in repertoire (function names without their $, statement and clause keywords) with 4 suffixes as ordinary names in 30 statement forms".into(), texts));
+    }
+    {
+        // argument lists made of commas: omitted arguments at every count around the powers of two, with and without a last argument
+        let mut texts = vec![];
+        for head in ["COLOR ", "LOCATE ", "PRINT ", "LPRINT ", "PRINT #1, ", "INPUT ", "READ ", "DATA ", "S ", "CALL S(", "X = F(", "VIEW PRINT ", "WIDTH ", "FIELD #1, ", "OPEN ", "CLOSE ", "DIM A(", "PRINT A(", "PRINT USING \"#\"; ", "LINE INPUT ", "GET #1, ", "POKE ", "SWAP ", "NAME ", "ON ERROR GOTO ", "SCREEN "] {
+            for n in [1usize, 2, 3, 4, 5, 8, 15, 16, 17, 31, 32, 33, 63, 64, 65, 100, 255, 256, 257, 1000] {
+                for last in ["", "7", "\"x\"", "A"] {
+                    let close = if head.ends_with('(') { ")" } else { "" };
+                    texts.push(format!("{}{}{}{}\n", head, ",".repeat(n), last, close));
+                    if n <= 5 {
+                        texts.push(format!("{}1{}{}{}\n", head, ", ".repeat(n), last, close));
+                    }
+                }
+            }
+        }
+        groups.push(("argument lists of 1 .. 1000 commas (omitted arguments) behind 26 statement heads, with and without a last argument".into(), texts));
+    }
     groups.push(("harvested texts as they are".into(), corpus.iter().map(|(_, t)| t.clone()).collect()));
 
     // seeds for edits: accepted programs; quick = first program per source file + fixtures.
